@@ -245,7 +245,7 @@ func (e *Engine) VerifyFunc(t unitTarget) *Unit {
 				continue
 			}
 			nret++
-			c.checkExit(f, sig, body.End())
+			c.checkExit(f, sig, body.Rbrace)
 		}
 	}
 	u.nreturns = nret
@@ -344,7 +344,21 @@ func (c *ExecCtx) checkExit(st *State, sig *types.Signature, pos token.Pos) {
 			results = append(results, Val{u.fresh("res", c.sortOfType(rt)), rt})
 		}
 	}
-	c.runNamedAnchor(st, "return", pos)
+	{
+		rb := map[string]Val{}
+		for i, r := range results {
+			rb[fmt.Sprintf("result%d", i)] = r
+		}
+		if len(results) > 0 {
+			rb["result"] = results[0]
+		}
+		for i, r := range c.results {
+			if r.Name() != "" && r.Name()[0] != '$' && i < len(results) {
+				rb[r.Name()] = results[i]
+			}
+		}
+		c.runNamedAnchorWith(st, "return", pos, rb)
+	}
 	if c.spec != nil {
 		env := c.newEnv(nil, pos)
 		env.bindResults(results)
